@@ -276,7 +276,8 @@ theorem C16_restore_malformed_example :
 
 /-- the second call of the resume handshake on an object in state `t` (first call done):
     a client receives CONNACK(accepted, session present) — without a Session Expiry Interval 0
-    property —, or a server sends CONNACK(accepted) -/
+    property —, or a server sends CONNACK(accepted, session present) (with session present =
+    false the CONNACK starts a new session instead — fix 10ee029, see C10) -/
 inductive ResumeAck (cfg : Cfg) (t : St) : Op → Prop
   | received (inp : List Nat) (parse : Nat → Nat → List Nat → Except Nat Pkt)
       (pb : Framing.PB) (fh : Nat) (data rest : List Nat) (q : Pkt)
@@ -287,6 +288,7 @@ inductive ResumeAck (cfg : Cfg) (t : St) : Op → Prop
       (hsei : ∀ e ∈ q.props, ¬ (e.1 = pSEI ∧ e.2 = 0)) : ResumeAck cfg t (.recv inp parse)
   | sent (q : Pkt) (hk : q.kind = .connack) (hver : q.ver = t.ver) (hv : t.ver = 4 ∨ t.ver = 5)
       (hr : cfg.role ≠ .client) (hst : t.status = .connecting) (hrc : q.rc = some 0)
+      (hsp : q.sp = true)
       (hsz : t.ver = 5 → q.size ≤ t.mpsSend) : ResumeAck cfg t (.send q)
 
 theorem prV3Connack_eq (c : C) (q : Pkt) (hst : c.s.status ≠ .connected) (hrc : q.rc = some 0)
@@ -302,20 +304,21 @@ theorem prV5Connack_eq (c : C) (q : Pkt) (hst : c.s.status ≠ .connected) (hrc 
         propsFold connackRecvProp { c with s := { c.s with status := .connected } } q.props) c)) := by
   simp only [prV5Connack, hst, if_false, hrc, if_true, hsp]
 
-theorem psV3Connack_eq (c : C) (q : Pkt) (hst : c.s.status = .connecting) (hrc : q.rc = some 0) :
+theorem psV3Connack_eq (c : C) (q : Pkt) (hst : c.s.status = .connecting) (hrc : q.rc = some 0)
+    (hsp : q.sp = true) :
     psV3Connack c q =
       sendPostProcess (sendStored ((fun c : C =>
         { c.push (.send q none) with s := { (c.push (.send q none)).s with status := .connected } }) c)) := by
-  simp only [psV3Connack, hst, ne_eq, not_true_eq_false, if_false, hrc]
+  simp only [psV3Connack, hst, ne_eq, not_true_eq_false, if_false, hrc, hsp, if_true]
 
 theorem psV5Connack_eq (c : C) (q : Pkt) (hst : c.s.status = .connecting) (hrc : q.rc = some 0)
-    (hsz : sizeOk c q = true) :
+    (hsp : q.sp = true) (hsz : sizeOk c q = true) :
     psV5Connack c q =
       sendPostProcess (sendStored ((fun c : C =>
         { (propsFold connackSendProp c q.props).push (.send q none) with
           s := { ((propsFold connackSendProp c q.props).push (.send q none)).s with status := .connected } }) c)) := by
   simp only [psV5Connack, hsz, Bool.not_true, Bool.false_eq_true, if_false, hst, ne_eq,
-    not_true_eq_false, hrc, if_true]
+    not_true_eq_false, hrc, if_true, hsp]
 
 theorem resume_wrap {cfg : Cfg} (f pre post : C → C) (hpre : Blind pre) (hpost : Blind post)
     (c : C) (X : Sess) (hf1 : f c = post (sendStored (pre c)))
@@ -369,7 +372,7 @@ theorem resumeAck_rel {cfg : Cfg} {t : St} {op : Op} (h : ResumeAck cfg t op) (X
       exact resume_wrap (cfg := cfg) (fun c => prV5Connack c (.ok q)) _ _ hb (blind_push _)
         ⟨cfg, { t with pb := pb }, []⟩ X (prV5Connack_eq _ q hstat hrc hsp) (prV5Connack_eq _ q hstat hrc hsp)
         hst w1 w2 hag
-  | sent q hk hver hv hr hstat hrc hsz =>
+  | sent q hk hver hv hr hstat hrc hsp hsz =>
     have hrole : roleMaySend cfg.role q = true := by
       cases hc : cfg.role <;> simp_all [roleMaySend]
     have key : ∀ t' : St, t'.ver = t.ver →
@@ -384,7 +387,7 @@ theorem resumeAck_rel {cfg : Cfg} {t : St} {op : Op} (h : ResumeAck cfg t op) (X
       simp only [e4, if_true]
       exact resume_wrap (cfg := cfg) (fun c => psV3Connack c q) _ _
         (Blind.comp blind_setConnected (blind_push _)) blind_sendPostProcess ⟨cfg, t, []⟩ X
-        (psV3Connack_eq _ q hstat hrc) (psV3Connack_eq _ q hstat hrc) hst w1 w2 hag
+        (psV3Connack_eq _ q hstat hrc hsp) (psV3Connack_eq _ q hstat hrc hsp) hst w1 w2 hag
     · have e4 : (t.ver = 4) = False := eq_false (by omega)
       simp only [e4, if_false]
       have hso : ∀ c : C, c.cfg = cfg → c.s.mpsSend = t.mpsSend → sizeOk c q = true := by
@@ -395,14 +398,14 @@ theorem resumeAck_rel {cfg : Cfg} {t : St} {op : Op} (h : ResumeAck cfg t op) (X
       exact resume_wrap (cfg := cfg) (fun c => psV5Connack c q) _ _
         (Blind.comp (Blind.comp blind_setConnected (blind_push _)) (blind_propsFold connackSendProp_ws q.props))
         blind_sendPostProcess ⟨cfg, t, []⟩ X
-        (psV5Connack_eq _ q hstat hrc (hso _ rfl rfl)) (psV5Connack_eq _ q hstat hrc (hso _ rfl rfl)) hst w1 w2 hag
+        (psV5Connack_eq _ q hstat hrc hsp (hso _ rfl rfl)) (psV5Connack_eq _ q hstat hrc hsp (hso _ rfl rfl)) hst w1 w2 hag
 
 theorem ResumeAck.setSess {cfg : Cfg} {t : St} {op : Op} (h : ResumeAck cfg t op) (X : Sess) :
     ResumeAck cfg (setSess t X) op := by
   cases h with
   | received inp parse pb fh data rest q hf ht hsz hr hv hstat hp hrc hsp hsei =>
     exact .received inp parse pb fh data rest q hf ht hsz hr hv hstat hp hrc hsp hsei
-  | sent q hk hver hv hr hstat hrc hsz => exact .sent q hk hver hv hr hstat hrc hsz
+  | sent q hk hver hv hr hstat hrc hsp hsz => exact .sent q hk hver hv hr hstat hrc hsp hsz
 
 theorem restoreOne_bnd (c : C) (p : Pkt) : Bnd (restoreOne c p).s.pidMan c.s.pidMan := by
   have hb := useValue_bnd c.s.pidMan (rid p)
@@ -432,7 +435,7 @@ theorem restore_tmax (cfg : Cfg) (ver : Nat) (e : List Pkt × List Nat) :
     the closed original: store ownership, well-formed allocator, every stored id in use.
     For every resume handshake — `op1` an accepted CONNECT without clean start (sent by a
     client or received by a server), `op2` its acknowledgement (`ResumeAck`: CONNACK session
-    present received, or CONNACK sent) —:
+    present received, or CONNACK session present sent) —:
     * both objects emit **the same events** in both calls: the same retransmissions
       (`send_stored`: same packets, same order), the same released ids, the same timer requests;
     * afterwards the restored object's state is the original's with only the session
@@ -546,5 +549,10 @@ example :
   intro v hv
   simp only [Alloc.Free, List.mem_cons, List.not_mem_nil, or_false] at hv
   obtain ⟨iv, (rfl | rfl | rfl), h1, h2⟩ := hv <;> simp only [Cfg.idMax, C16ex.cfg] at * <;> omega
+
+/-- non-vacuity of `ResumeAck.sent`: a server in `connecting` sends CONNACK(accepted, session present) -/
+example : ResumeAck ⟨.server, 2⟩ { St.init ⟨.server, 2⟩ 4 with status := .connecting }
+    (.send { ver := 4, kind := .connack, size := 4, sp := true, rc := some 0 }) :=
+  .sent _ rfl rfl (Or.inl rfl) (by decide) rfl rfl rfl (fun h => absurd h (by decide))
 
 end MqttVerif.Conn
